@@ -25,6 +25,7 @@ RULE = (
     "itertools.groupby under the same history - per op the returned key / item (identity) / stop, and the "
     "normalised pull/call event log. Non-trivial: >=2 groups returned and >=1 advance of a group that is not "
     "the newest or is partially consumed; distinct = distinct (items, key fn, history) by 64-bit hash."
+    " Extensions of rounds 9-12: loops over a group left at once, wildcard-equal and Ellipsis items."
 )
 COMPONENTS = COMPONENTS_BASE
 ASSUMPTIONS = [
